@@ -319,7 +319,7 @@ theorem panLoginBody_blocks (env : Env) (h : HaPassive env.dev) (n : String) (st
   apply exec_nr_status
   -- state before checkHA
   generalize exec env panGetAPIKey st = x
-  simp only [panCheckHA, exec_seq, exec_call, exec_block, exec_note, exec_send]
+  simp only [panCheckHA, errRet, exec_seq, exec_call, exec_block, exec_note, exec_send]
   cases hr : x.status.isRunning with
   | false =>
     rw [sendStep_nr env _ _ x hr]
@@ -495,10 +495,10 @@ theorem panos_marker_shut (env : Env) (h : PanNoMarker env.cfg env.dev) :
   simp only [panGetChanges, panProcessVsysPairs, panCheckUnmanaged, exec_seq, exec_call, exec_note,
     exec_defn] at hr ⊢
   -- the record step appends a non-empty list; the check after it does not touch errU
-  have hrec : (exec env (Prog.record
-      (.opaque "!strings.Contains(name, \"netspoc\")" fun cfg r _ => !(panUnmarkedOf cfg r).isEmpty)
-      "s.errUnmanaged = append(s.errUnmanaged, fmt.Errorf(\"Missing NetSPoC in name of %s\", v.Name))"
+  have hrec : ∀ l t : String, (exec env (Prog.record
+      (.opaque l fun cfg r _ => !(panUnmarkedOf cfg r).isEmpty) t
       .append panUnmarkedOf) y).errU = y.errU ++ panUnmarked env.cfg vs := by
+    intro l t
     simp [exec, h1, Pred.eval, penv, hrep, panUnmarkedOf, hne']
   intro hnil
   rw [exec_errU env _ (by rfl)] at hnil
